@@ -13,7 +13,7 @@ import (
 
 func init() {
 	register(&PropInfo{
-		ID: "C13", Level: "other", MinObls: 26,
+		ID: "C13", Level: "other", MinObls: 22,
 		Explanation: "Modular arithmetic, AES-CTR and stream equality are not decided; decided are: R1 UniformDH structure: the private exponent has bit 0 cleared before the exponentiation g^x mod p, that bit selects X or p-X, both are serialised with FillBytes into a 192-byte buffer (always exactly 192 bytes, left-padded), the shared secret likewise, imported keys of any other length are refused; " +
 			"R2 obfs3 key derivation against a spec table and a role table: INIT/RESP secrets and magics are HMAC-SHA256(shared secret, label) with the four labels, KEY = [:16], COUNTER = [16:], initiator sends with INIT and scans for the RESP magic, responder mirrored; MAX_PADDING 8194 and both padding draws in [0,4097]; " +
 			"R3 magic scan: the search covers the whole receive buffer for the expected magic, fails once 8194+32 bytes were scanned without it and when it lies beyond 8194, and on a match drops exactly pos+len(magic) bytes keeping the rest; R4 buffer hand-over: the stream reader is rewired to the connection only when the handshake buffer is empty and the buffer object the reader was built over is never replaced; R5 short-read discipline, deadlines and bounded scan loop (C10 instances).",
